@@ -786,7 +786,8 @@ def MZM(
 
     output = op_input[:]
 
-    g_t = pi / 2 / Vpi * (el_input.signal + bias)
+    # (1.0 * u: an integer drive array plus an integer bias would be added in the integer dtype of the array and wrap around)
+    g_t = pi / 2 / Vpi * (1.0 * el_input.signal + bias)
     h_t = loss**0.5 * (np.cos(g_t) + 1j * eta / 2 * np.sin(g_t))
 
     output.signal = output.signal * h_t
